@@ -513,7 +513,20 @@ func unionMissOnly(a, b string) bool {
 		return false
 	}
 	norm := func(s string) string {
-		return canonLocs.ReplaceAllString(unionMissMsg.ReplaceAllString(s, "UNION-MISS"), "")
+		s = canonLocs.ReplaceAllString(unionMissMsg.ReplaceAllString(s, "UNION-MISS"), "")
+		// (the errors of a canonical response are sorted by their text: sort again now that the texts are the same)
+		const tag = `"errors":"sorted:`
+		i := strings.Index(s, tag)
+		if i < 0 {
+			return s
+		}
+		j := i + len(tag)
+		for j < len(s) && !(s[j] == '"' && s[j-1] != '\\') {
+			j++
+		}
+		es := strings.Split(s[i+len(tag):j], "};{")
+		sort.Strings(es)
+		return s[:i+len(tag)] + strings.Join(es, "};{") + s[j:]
 	}
 	return norm(a) == norm(b)
 }
